@@ -937,6 +937,10 @@ class Environment(Macro):
 #       print 'DONE', type(self)
         if dopars:
             self.paragraphs()
+        elif self.level == Node.DOCUMENT_LEVEL:
+            # A document body without any paragraph break still gets its
+            # text merged and the character substitutions applied
+            self.paragraphs(force=False)
 
 class NoCharSubEnvironment(Environment):
     """
